@@ -421,7 +421,9 @@ class C14(base.Engine):
             v['req'] = r.randint(lo, max(lo, nreq))
             return v
         batch = _batch_drop_positions(ops)
-        if batch and r.random() < 0.25:
+        if r.random() < 0.12:
+            pass        # no death: only the GC schedule (gc_now entries below) differs from the reference
+        elif batch and r.random() < 0.25:
             # the helper dies unnoticed right before a batch of discarded Scripts is
             # collected: their deletion requests are pending when the death is discovered
             i, j = r.choice(batch)
@@ -451,6 +453,15 @@ class C14(base.Engine):
             faults.append(one_fault())
         if r.random() < 0.3:
             ops.insert(r.randrange(len(ops)), {'op': 'gc'})
+        if r.random() < 0.35:
+            # the collector runs inside a request: while deletion messages are being flushed
+            # (finalizers of other discarded Scripts then append to the queue being drained),
+            # or at an arbitrary request
+            for _ in range(r.randint(1, 3)):
+                if r.random() < 0.7:
+                    faults.append({'phase': 'gc_now', 'fn': '<delete>', 'occ': r.randint(1, 6)})
+                else:
+                    faults.append({'phase': 'gc_now', 'req': r.randint(1, max(1, nreq))})
         c = dict(s, id='%s:plan%d' % (s['id'], n), faults=faults, ops=ops)
         if len(ops) != len(s['ops']):
             c.pop('_ref', None)     # op indices moved: reference is recomputed
